@@ -76,10 +76,13 @@ pub fn run(args: &Args) -> Report {
         // evenly over the explored ones.
         let deadline = Instant::now() + Duration::from_secs(slice - 2 * (slice / 3));
         let want = args.tier.pick(48, 2000).min(starts.len());
-        let mut picks: Vec<Option<usize>> = vec![None];
-        picks.extend((0..want).map(|k| Some(k * starts.len() / want.max(1))));
+        let mut picks0: Vec<Option<usize>> = vec![None];
+        picks0.extend((0..want).map(|k| Some(k * starts.len() / want.max(1))));
+        // every starting point twice: as it is, and after the adversarial prefix "storage lags behind
+        // consensus until nothing can happen any more, then every process dies" (also on real loops)
+        let picks: Vec<Option<usize>> = picks0.iter().flat_map(|p| [*p, *p]).collect();
         let lres = par_map(picks.len(), |i| {
-            if Instant::now() > deadline && i > 0 {
+            if Instant::now() > deadline && i > 1 {
                 return None;
             }
             let nodes: Vec<(usize, Local)> = match picks[i] {
@@ -87,6 +90,15 @@ pub fn run(args: &Args) -> Report {
                 Some(si) => sys.correct.iter().zip(starts[si].0.locals.iter()).map(|(c, l)| (*c, t.locals[*l as usize].restarted())).collect(),
             };
             let ch = core::Chooser::new(vec![], None);
+            if i % 2 == 1 {
+                let after_crash = bftsim::stalled_storage_then_crash(&ch, &sys.w, &nodes);
+                let ch = core::Chooser::new(vec![], None);
+                let mut r = bftsim::run_loops(&ch, &sys.w, &after_crash, bound);
+                if !r.ok {
+                    r.why = format!("{} (after the prefix: storage stalled until quiescence, then all nodes crashed and restarted)", r.why);
+                }
+                return Some(r);
+            }
             Some(bftsim::run_loops(&ch, &sys.w, &nodes, bound))
         });
         let mut loops_here = 0;
